@@ -156,13 +156,17 @@ func (l *mLoc) rem(id string) map[string]bool {
 }
 
 func (l *mLoc) markUnspecClosure(id string) {
+	// (visited set of this call, not the Unspec flags: an id that is already
+	// unspecified may have gained dependents since it was marked)
+	seen := map[string]bool{}
 	work := []string{id}
 	for len(work) > 0 {
 		x := work[0]
 		work = work[1:]
-		if l.Unspec[x] {
+		if seen[x] {
 			continue
 		}
+		seen[x] = true
 		l.Unspec[x] = true
 		work = append(work, l.dependents(x)...)
 	}
